@@ -588,14 +588,6 @@ impl<'a, T: Send> RecvBatchFuture<'a, T> {
       _phantom: PhantomPinned,
     }
   }
-
-  /// For an operation started on a handle that was already closed: the first poll takes the
-  /// regular "finished, closed" path and resolves with the closed/disconnected error.
-  pub(super) fn rejected(mut self) -> Self {
-    self.state = AtomicU8::new(STATE_CLOSED_BUFFERED);
-    self.is_registered = true;
-    self
-  }
 }
 
 impl<'a, T: Send> Future for RecvBatchFuture<'a, T> {
@@ -606,17 +598,31 @@ impl<'a, T: Send> Future for RecvBatchFuture<'a, T> {
     let state_ptr = &this.state as *const AtomicU8;
     let mut out = Vec::new();
 
+    if this.receiver.closed.load(Ordering::Relaxed) {
+      // this handle was closed: every operation on it is rejected
+      if this.is_registered {
+        this.is_registered = false;
+        let mut guard = this.receiver.shared.internal.lock();
+        guard
+          .waiting_async_receivers
+          .retain(|w| w.state != state_ptr);
+      }
+      return Poll::Ready(Err(RecvError::Disconnected));
+    }
+
     if this.is_registered {
       let st = this.state.load(Ordering::SeqCst);
       if (st & 0x01) != 0 {
         this.is_registered = false;
         if (st & 0x02) == 0 {
+          // The last sender is gone. Values it sent may still be buffered (for instance one
+          // whose wake went to another waiter), so do not report Disconnected from the flag
+          // alone: unlink and fall through to the regular poll, which drains first and only
+          // then reports Disconnected.
           let mut guard = this.receiver.shared.internal.lock();
           guard
             .waiting_async_receivers
             .retain(|w| w.state != state_ptr);
-          drop(guard);
-          return Poll::Ready(Err(RecvError::Disconnected));
         }
       }
     }
@@ -695,14 +701,6 @@ impl<'a, T: Send> RecvBatchMutFuture<'a, T> {
       _phantom: PhantomPinned,
     }
   }
-
-  /// For an operation started on a handle that was already closed: the first poll takes the
-  /// regular "finished, closed" path and resolves with the closed/disconnected error.
-  pub(super) fn rejected(mut self) -> Self {
-    self.state = AtomicU8::new(STATE_CLOSED_BUFFERED);
-    self.is_registered = true;
-    self
-  }
 }
 
 impl<'a, T: Send> Future for RecvBatchMutFuture<'a, T> {
@@ -713,17 +711,31 @@ impl<'a, T: Send> Future for RecvBatchMutFuture<'a, T> {
     let state_ptr = &this.state as *const AtomicU8;
     let max = this.max;
 
+    if this.receiver.closed.load(Ordering::Relaxed) {
+      // this handle was closed: every operation on it is rejected
+      if this.is_registered {
+        this.is_registered = false;
+        let mut guard = this.receiver.shared.internal.lock();
+        guard
+          .waiting_async_receivers
+          .retain(|w| w.state != state_ptr);
+      }
+      return Poll::Ready(Err(RecvError::Disconnected));
+    }
+
     if this.is_registered {
       let st = this.state.load(Ordering::SeqCst);
       if (st & 0x01) != 0 {
         this.is_registered = false;
         if (st & 0x02) == 0 {
+          // The last sender is gone. Values it sent may still be buffered (for instance one
+          // whose wake went to another waiter), so do not report Disconnected from the flag
+          // alone: unlink and fall through to the regular poll, which drains first and only
+          // then reports Disconnected.
           let mut guard = this.receiver.shared.internal.lock();
           guard
             .waiting_async_receivers
             .retain(|w| w.state != state_ptr);
-          drop(guard);
-          return Poll::Ready(Err(RecvError::Disconnected));
         }
       }
     }
@@ -798,14 +810,6 @@ impl<'a, T: Send> RecvFuture<'a, T> {
       _phantom: PhantomPinned,
     }
   }
-
-  /// For an operation started on a handle that was already closed: the first poll takes the
-  /// regular "finished, closed" path and resolves with the closed/disconnected error.
-  pub(super) fn rejected(mut self) -> Self {
-    self.state = AtomicU8::new(STATE_CLOSED_BUFFERED);
-    self.is_registered = true;
-    self
-  }
 }
 
 impl<'a, T: Send> Future for RecvFuture<'a, T> {
@@ -816,17 +820,31 @@ impl<'a, T: Send> Future for RecvFuture<'a, T> {
     let this = unsafe { self.as_mut().get_unchecked_mut() };
     let state_ptr = &this.state as *const AtomicU8;
 
+    if this.receiver.closed.load(Ordering::Relaxed) {
+      // this handle was closed: every operation on it is rejected
+      if this.is_registered {
+        this.is_registered = false;
+        let mut guard = this.receiver.shared.internal.lock();
+        guard
+          .waiting_async_receivers
+          .retain(|w| w.state != state_ptr);
+      }
+      return Poll::Ready(Err(RecvError::Disconnected));
+    }
+
     if this.is_registered {
       let st = this.state.load(Ordering::SeqCst);
       if (st & 0x01) != 0 {
         this.is_registered = false;
         if (st & 0x02) == 0 {
+          // The last sender is gone. Values it sent may still be buffered (for instance one
+          // whose wake went to another waiter), so do not report Disconnected from the flag
+          // alone: unlink and fall through to the regular poll, which drains first and only
+          // then reports Disconnected.
           let mut guard = this.receiver.shared.internal.lock();
           guard
             .waiting_async_receivers
             .retain(|w| w.state != state_ptr);
-          drop(guard);
-          return Poll::Ready(Err(RecvError::Disconnected));
         }
       }
     }
